@@ -878,7 +878,7 @@ func (g *c05Runner) flush() {
 
 // RunC05 is the status / error fidelity check.
 func RunC05(r *mon.Run) {
-	r.Rule = "a scripted handler behind a real Mux returns status (code, message, optional 2 details) before any reply or after 1 / 3 replies; one client per protocol observes the outcome: HTTP JSON/protobuf and Twirp (in-process and HTTP/1 socket), grpc-go over h2c, raw gRPC frames in-process and over h2c, gRPC-web binary/text (in-process and HTTP/1 socket), WebSocket (socket). Cases = (codes 0..16, 17, 18, 19, 31, 32, 63, 64, 100, 255, 256, 2^31-1, 2^31, 2^32-1 x 3 base messages) + (2-3 codes x every message of the message set: empty, ASCII, single bytes embedded in text, '%' at start/middle/end, multi-byte tails, 1 KiB, 70 KiB, 123/124-byte close-frame boundary, seeded random mixes of ASCII / '%' / control / multi-byte pieces), each with and without details, on every protocol x codec x method x reply-count variant, plus a class where the handler calls SetHeader / SendHeader / SetTrailer with custom metadata at entry or right before it returns the status, plus HTTP failures (handler errors on body-less GET and HttpBody upload routes, errors of the mux itself: no codec, no route, wrong verb, unknown method) under 11 request Content-Type x 11 Accept values (absent, registered, with parameters, other case, foreign, wildcard, non-matching, malformed), plus sequences (the request preceded on the same fresh mux by another client's request with the same Accept value and another Content-Type; the answer must equal the one a fresh mux gives to the request alone), plus a sweep of the status message length 0..40 on gRPC-web-text after 0..3 replies, plus muxes built with small MaxSendMessageSize / MaxReceiveMessageSize options (64, 256 bytes) x long messages / details, plus client- and bidi-streaming gRPC clients (grpc-go, raw h2c) that keep their send side open until the status arrives (10 s watchdog + goroutine dump), plus a small class where the call's deadline has expired before the handler returns. Every class runs against the handler registered on the mux and (quick: reduced matrix) against the same handler on a real grpc.Server back-end that a second mux proxies through RegisterConn (codes up to 2^31-1). An execution is non-trivial when the scripted handler ran; distinct = (target, protocol, codec, method, replies before status, code class, message shape, details?)"
+	r.Rule = "a scripted handler behind a real Mux returns status (code, message, optional 2 details) before any reply or after 1 / 3 replies; one client per protocol observes the outcome: HTTP JSON/protobuf and Twirp (in-process and HTTP/1 socket), grpc-go over h2c, raw gRPC frames in-process and over h2c, gRPC-web binary/text (in-process and HTTP/1 socket), WebSocket (socket). Cases = (codes 0..16, 17, 18, 19, 31, 32, 63, 64, 100, 255, 256, 2^31-1, 2^31, 2^32-1 x 3 base messages) + (2-3 codes x every message of the message set: empty, ASCII, single bytes embedded in text, '%' at start/middle/end, multi-byte tails, 1 KiB, 70 KiB, 123/124-byte close-frame boundary, seeded random mixes of ASCII / '%' / control / multi-byte pieces), each with and without details, on every protocol x codec x method x reply-count variant, plus a class where the handler calls SetHeader / SendHeader / SetTrailer with custom metadata at entry or right before it returns the status, plus HTTP failures (handler errors on body-less GET and HttpBody upload routes, errors of the mux itself: no codec, no route, wrong verb, unknown method) under 11 request Content-Type x 11 Accept values (absent, registered, with parameters, other case, foreign, wildcard, non-matching, malformed), plus sequences (the request preceded on the same fresh mux by another client's request with the same Accept value and another Content-Type; the answer must equal the one a fresh mux gives to the request alone), plus a sweep of the status message length 0..40 on gRPC-web-text after 0..3 replies, plus a mux with ConnectionTimeoutOption(100ms) whose handler stays quiet for 400 ms before it returns its status (after 0..3 replies; WebSocket, gRPC, gRPC-web, HTTP), plus muxes built with small MaxSendMessageSize / MaxReceiveMessageSize options (64, 256 bytes) x long messages / details, plus client- and bidi-streaming gRPC clients (grpc-go, raw h2c) that keep their send side open until the status arrives (10 s watchdog + goroutine dump), plus a small class where the call's deadline has expired before the handler returns. Every class runs against the handler registered on the mux and (quick: reduced matrix) against the same handler on a real grpc.Server back-end that a second mux proxies through RegisterConn (codes up to 2^31-1). An execution is non-trivial when the scripted handler ran; distinct = (target, protocol, codec, method, replies before status, code class, message shape, details?)"
 	r.Floor = 150
 	env, err := newEnv()
 	if err != nil {
@@ -1109,6 +1109,31 @@ func RunC05(r *mon.Run) {
 						g.exec(c, c.Class)
 					}
 				}
+			}
+		}
+	}
+
+	// a small ConnectionTimeoutOption and a handler that stays quiet longer
+	// than it before returning its status: the option must not affect how the
+	// status reaches the client
+	for _, target := range []string{"", "proxy"} {
+		for _, v := range []variant{{"ws", "json", "Bidi", 0}, {"ws", "json", "Bidi", 1}, {"ws", "json", "Bidi", 3},
+			{"grpc", "proto", "Echo", 0}, {"grpc", "proto", "SS", 1}, {"grpc", "proto", "Bidi", 2}, {"grpc-h2c", "proto", "SS", 1},
+			{"grpcweb", "proto", "SS", 0}, {"grpcweb", "proto", "SS", 2}, {"grpcweb-text", "proto", "SS", 1}, {"grpcweb-sock", "proto", "SS", 1}, {"grpcweb-text-sock", "proto", "SS", 2},
+			{"http-sock", "json", "Echo", 0}, {"twirp-sock", "json", "Echo", 0}} {
+			if target == "proxy" && v.proto != "ws" && v.proto != "grpc" {
+				continue
+			}
+			for _, code := range []uint32{5, 0} {
+				if code == 0 && v.proto != "ws" {
+					continue
+				}
+				c := &Case{Kind: "C05", Proto: v.proto, Codec: v.codec, Method: v.method, Class: "quiet-before-status", Target: target, Opt: "conn100ms",
+					Script: Script{Code: code, Msg: "50% done", Details: true, Replies: v.replies, PauseMs: 400}}
+				if code == 0 && v.replies == 0 {
+					c.Script.Replies = 2
+				}
+				g.exec(c, c.Class)
 			}
 		}
 	}
